@@ -199,6 +199,8 @@ pub enum Step {
     CloneHandle { h: u8 },
     DropHandle { h: u8 },
     ArmTracePanic { k: u8 },
+    /// the k-th destructor run by the next arena drop panics (fault injection for C04 / C11)
+    ArmDropPanic { k: u8 },
     NewArena { preset: u8, fallible: bool, outcome: Outcome, ops: Vec<MutOp> },
     DropArena { arena: u8 },
     /// finish_cycle(); finish_cycle(); then the exactness oracle
